@@ -32,7 +32,7 @@ def child(histories, d, tag):
     env["PYTHONPATH"] = str(VERIF / "harness") + os.pathsep + env.get("PYTHONPATH", "")
     env["LD_PRELOAD"] = str(VERIF / "native" / "libinterpose.so")
     p = subprocess.run([sys.executable, "-m", "vf.c13_child", str(path)], capture_output=True, text=True, env=env,
-                       cwd=str(VERIF / "harness"), timeout=1800)
+                       cwd=str(VERIF / "harness"), timeout=900 + len(histories))
     outs = [json.loads(l[2:]) for l in p.stdout.splitlines() if l.startswith("@@")]
     return outs, p.returncode, p.stderr[-600:]
 
@@ -99,6 +99,14 @@ def run(tier, seed):
     hists = uniq
     if not hists:
         raise MachineryError("C13: no history generated")
+    # TLC has checked the design on every history; the real code replays all of them up to a limit, beyond it a
+    # seeded sample (a history is ~4-9 real evaluations plus a gc.collect() per action)
+    generated = len(hists)
+    limit = 8000 if tier == "quick" else 36000
+    if len(hists) > limit:
+        import random
+
+        hists = random.Random(13 * seed + 13).sample(hists, limit)
     d = workdir("c13r")
     import concurrent.futures as cf
 
@@ -149,7 +157,7 @@ def run(tier, seed):
                    "is poisoned by the interposer so a read after free yields garbage deterministically: exhaustive to the stated length with 2 names, -simulate longer with 3 names; "
                    "each replayed under the malloc/free interposer with the freed set compared after every action. "
                    "Non-trivial = a history in which some tensor's arrays must be freed before the end.",
-           "samples": [h["hist"] for h in hists[:2]], "histories": len(hists), "bounds": PARAMS[tier],
+           "samples": [h["hist"] for h in hists[:2]], "histories": len(hists), "histories_generated": generated, "bounds": PARAMS[tier],
            "design_invariants": INVARIANTS, "inductive_invariant": proof, "exhaustive": False}
     return {"violations": vio, "coverage": cov,
             "assumptions": ["CPython reference counting + gc.collect() after every action",
